@@ -50,7 +50,7 @@ def _env_factory(ctx, consts, base):
 
 
 def stage_graph(ctx, name, *, bases=(0,), invariants=None, consts=None, on_step=None, max_run=400,
-                result=None):
+                result=None, env_factory=None, on_run_end=None):
     """roles A+B: TLC explores the configuration exhaustively, checks the invariants and prints
     every transition; each printed transition is then executed on real objects"""
     consts = consts or configs.get(name)
@@ -63,8 +63,13 @@ def stage_graph(ctx, name, *, bases=(0,), invariants=None, consts=None, on_step=
           "tlc_wall_s": round(r.wall_s, 1), "graph_from_cache": bool(getattr(r, "from_cache", False)),
           "bases": [], "exhaustive": True}
     for base in bases:
-        w = replay.Walker(G, _env_factory(ctx, consts, base), consts["EmitKeys"], seed=ctx.seed, on_step=on_step,
-                          max_run=max_run).run()
+        mk = env_factory(base) if env_factory else _env_factory(ctx, consts, base)
+        w = replay.Walker(G, mk, consts["EmitKeys"], seed=ctx.seed, on_step=on_step,
+                          max_run=max_run, on_run_end=on_run_end).run()
+        for j in w.extra:
+            j["config"] = name
+            j["base"] = str(base)
+            _file(ctx, j)
         for e in G.out:
             for x in e:
                 x[2] = False
@@ -176,3 +181,79 @@ def stage_sim(ctx, name, *, num, depth, bases=(0,), consts=None, invariants=None
         ctx.samples.append({"config": name, "behaviour": [replay.args_of(x["op"]) for x in behs[0][:12]]})
     ctx.stages.append(st)
     return r
+
+
+METHOD_PROP = {"byte_intervals_on": "C06", "byte_intervals_at": "C06", "sections_on": "C06", "sections_at": "C06",
+               "section_address": "C06", "section_size": "C06", "symbolic_expressions_at": "C13",
+               "symbolic_expressions_at_offset": "C13", "block_address": "C19", "contains_offset": "C19",
+               "contains_address": "C19"}
+
+
+def judge_recorded(ctx, name, consts, rec):
+    """role C: TLC judges every recorded lookup answer against the spec's fresh-scan operators"""
+    from . import judge
+    rec.close()
+    total, bad = judge.run_judge(name, consts, rec.path)
+    ctx.evaluations += rec.n_queries
+    for b in bad:
+        r = b.pop("record")
+        v = {"kind": "lookup", "props": [METHOD_PROP.get(b["f"], "C05")],
+             "op": {"name": b["f"], "x": b["x"], "q": b["q"]},
+             "expected": {"must": b["must"], "may": b["may"]}, "observed": b["ans"],
+             "history": [], "state": r["st"], "base": r.get("base", "0"), "config": name,
+             "signature": "lookup:%s/%s" % (b["f"], "point" if b["q"][1] == b["q"][0] + 1 and b["q"][2] == 1 else "range")}
+        _file(ctx, v)
+    ctx.stages.append({"stage": "judge-lookups", "config": name, "states_recorded": rec.n_records,
+                       "lookups_judged_by_tlc": rec.n_queries, "lookups_with_nonempty_answer": rec.nonempty,
+                       "rejected": len(bad), "by_method": rec.by_method})
+    if rec.samples and len(ctx.samples) < 6:
+        ctx.samples.append({"config": name, "lookup": rec.samples[0]})
+    ctx.log("judge %s: %d states, %d lookups (%d non-empty), %d rejected" % (
+        name, rec.n_records, rec.n_queries, rec.nonempty, len(bad)))
+    return bad
+
+
+def stage_graph_lookups(ctx, name, *, bases=(0,), per_step=8, result=None, consts=None):
+    from . import judge
+    consts = consts or configs.get(name)
+    for base in bases:
+        rec = judge.Recorder(consts, seed=ctx.seed + 17, per_step=per_step)
+        stage_graph(ctx, name, bases=(base,), consts=consts, result=result,
+                    on_step=lambda env, op, sid: rec.record(env, state_key=sid))
+        judge_recorded(ctx, name, consts, rec)
+
+
+def stage_sim_lookups(ctx, name, *, num, depth, bases=(0,), per_step=8, consts=None):
+    from . import judge
+    consts = consts or configs.get(name)
+    for base in bases:
+        rec = judge.Recorder(consts, seed=ctx.seed + 23, per_step=per_step)
+        stage_sim(ctx, name, num=num, depth=depth, bases=(base,), consts=consts,
+                  on_step=lambda env, op, r: rec.record(env))
+        judge_recorded(ctx, name, consts, rec)
+
+
+def stage_lazy(ctx, name, *, bases=(0,), consts=None, max_run=60):
+    """C12: TLC enumerates every placement of lookups among edits (Lookup actions + lazy-index
+    bookkeeping in the state); the walk executes each on real objects, TLC judges the answers, and a
+    twin that receives the same edits but no lookups must give the same final answers."""
+    from . import judge
+    consts = consts or configs.get(name)
+    for base in bases:
+        rec = judge.Recorder(consts, seed=ctx.seed + 31, per_step=0)
+        stats = {"branch": {}, "model_branch_agree": 0, "model_branch_disagree": 0, "twin_comparisons": 0,
+                 "twin_answers_compared": 0}
+        mk = lambda b: (lambda: judge.LazyEnv(ctx.gtirb, consts, b, rec, stats))  # noqa
+        stage_graph(ctx, name, bases=(base,), consts=consts, env_factory=mk, max_run=max_run,
+                    on_run_end=lambda env, hist: env.finish(hist))
+        judge_recorded(ctx, name, consts, rec)
+        ctx.stages.append({"stage": "lazy-schedules", "config": name, "base": str(base),
+                           "get_branches_taken_in_code(hook)": stats["branch"],
+                           "spec_branch_prediction_agreed": stats["model_branch_agree"],
+                           "spec_branch_prediction_disagreed(diagnostic only)": stats["model_branch_disagree"],
+                           "twin_final_comparisons": stats["twin_comparisons"],
+                           "twin_answers_compared": stats["twin_answers_compared"]})
+        ctx.log("lazy %s: get() branches %s, twin comparisons %d (%d answers), model/hook agree %d disagree %d" % (
+            name, stats["branch"], stats["twin_comparisons"], stats["twin_answers_compared"],
+            stats["model_branch_agree"], stats["model_branch_disagree"]))
+        ctx.notes.setdefault("get_branches", {}).update({name: dict(stats["branch"])})
